@@ -132,6 +132,11 @@ func c53CheckDir(x *dbx, mutate func(dir string), variant string) *vx.Fail {
 	ranges := [][2]int64{{math.MinInt64, math.MaxInt64}}
 	bnd := x.queryBounds()
 	ranges = append(ranges, [2]int64{bnd[len(bnd)/2], math.MaxInt64})
+	// a range ENDING exactly on the newest in-order block's MaxTime: the read-only open decides from the
+	// end of the range whether the WAL is replayed at all, and that timestamp belongs to the head
+	if mb, ok := rw.inOrderBlocksMaxTime(); ok {
+		ranges = append(ranges, [2]int64{math.MinInt64, mb})
+	}
 	want := map[string]string{}
 	for _, rg := range ranges {
 		for _, chunked := range []bool{false, true} {
